@@ -1,5 +1,29 @@
-(* C03 - statements only. *)
-Require Import List ZArith. Require Import IW.KV.Node IW.KV.Node_proofs.
-Theorem C03_insert_length : forall K V (n : recs K V) i e, length (insert_at K V n i e) = S (length n).
-Proof. exact insert_at_length. Qed.
-Print Assumptions C03_insert_length.
+(* C03 - a cleanly closed store reopens with identical contents.  Statements only.
+   PROVED: the field codecs of the file image are inverse - what close/sync writes (little-endian integers of the
+   headers and node blocks, variable-length numbers of the data-block index) is what open reads.
+   NOT proved (open goal, kept visible): `reopen_identity : abs (open (close s)) = abs s` for the whole store model,
+   `trim_preserves`, `rdonly_no_effect`.  Those are decided per history on the implementation: dump before close =
+   dump after reopen for {WAL on/off} x {read-only, read-write} x {trim, no-trim}, metadata, database ids/flags, the
+   read-only sessions refuse every mutating call, truncate yields an empty store (python oracle in checks/kvcommon.py),
+   and the reopened image is read by the extracted auditor (C06). *)
+Require Import List ZArith Lia. Import ListNotations.
+Require Import IW.Lib.Vnum IW.KV.Audit IW.KV.Inst IW.KV.Image_proofs.
+Local Open Scope Z_scope.
+
+Theorem C03_le_roundtrip_partial : forall n v, 0 <= v < 256 ^ Z.of_nat n -> le_decode (le_encode n v) = v.
+Proof. exact le_roundtrip. Qed.
+Print Assumptions C03_le_roundtrip_partial.
+
+Theorem C03_u32_field_roundtrip_partial :
+  forall (rd : Z -> Z) (o v : Z), 0 <= v < 2 ^ 32 -> holds rd o (le_encode 4 v) -> u32 rd o = v.
+Proof. exact u32_reads_le. Qed.
+Print Assumptions C03_u32_field_roundtrip_partial.
+
+Theorem C03_index_entry_roundtrip_partial :
+  forall (rd : Z -> Z) (o v : Z), 0 <= v < 2 ^ 63 -> holds rd o (set_vnum64 v) ->
+    rdv rd o = Some (v, Z.of_nat (length (set_vnum64 v))).
+Proof. exact rdv_reads_set_vnum64. Qed.
+Print Assumptions C03_index_entry_roundtrip_partial.
+
+Example C03_roundtrip_example : le_decode (le_encode 4 305419896) = 305419896.
+Proof. reflexivity. Qed.
